@@ -19,7 +19,7 @@ ASSUMPTIONS = ["bounds: Newton-based solvers (Rattle, BackwardEuler): 20*sqrt(n)
                "ScipyDAE: 100*(atol + rtol*scale) with rtol=1e-6, atol=1e-8 and second-half maximum <= 3 x first-half maximum + floor; ScipyIVP residuals 1e-7*scale",
                "runs in which the solver itself raises are counted as undecided (non-convergence is the subject of C21)"]
 REQUIRED_MONITORS = ["g:Rattle", "g_dot:Rattle", "g:BackwardEuler", "g:DualStormerVerlet", "g_dot_mid:Moreau", "g:ScipyDAE", "drift:ScipyDAE",
-                     "eom:ScipyIVP", "quat:Rattle", "quat:BackwardEuler", "quat:Moreau", "quat:DualStormerVerlet"]
+                     "eom:ScipyIVP", "eom:ScipyIVP:restart", "quat:Rattle", "quat:BackwardEuler", "quat:Moreau", "quat:DualStormerVerlet"]
 META = {
     "level_text": "Exploration: trace monitor over every stored step of real simulations of generated constrained chains with all six solvers; constraint residuals are recomputed from the returned Solution with the real System methods and compared with bounds derived from the solver tolerances. Held on the runs generated.",
     "level_note": "bounds as listed in the assumptions (Newton-based: derived from the stopping criterion; DualStormerVerlet: calibrated constant); runs where the solver raises are undecided.",
@@ -35,7 +35,7 @@ TOL = 1e-9
 
 def cases(tier, seed):
     n = {"quick": 72, "thorough": 1500}[tier]
-    out = []
+    out = [{"kind": "ivp_restart", "solver": "ScipyIVP", "rep": r} for r in range({"quick": 3, "thorough": 40}[tier])]
     for i in range(n):
         out.append({"solver": SOLVERS[i % len(SOLVERS)], "dt": DTS[(i // len(SOLVERS)) % len(DTS)], "closed": (i // 3) % 4 == 0,
                     "base": ["origin", "origin", "moving", "rotating"][(i // 5) % 4], "actuated": (i // len(SOLVERS)) % 3 == 1})
@@ -50,8 +50,66 @@ def _quat_dofs(S):
     return out
 
 
+def run_ivp_restart(spec, ctx):
+    """ODE wrapper on a system that is restarted: a body on a revolute joint with a torsional spring spins through at least one
+    full turn (leg 1), the system is re-initialised with the state reached (the joint keeps its turn count by design) and
+    integrated further (leg 2). The accelerations reported for BOTH legs must satisfy the equations of motion; the reference
+    residual is evaluated on a copy of the system taken before leg 1 and walked through all stored states in order."""
+    import cardillo.solver as sv
+    from cardillo import System
+    from cardillo.discrete import RigidBody
+    from cardillo.constraints import Revolute
+    from cardillo.force_laws import Spring
+    from cardillo.solver import SolverOptions
+    rng = ctx.rng
+    with gen.quiet(), warnings.catch_warnings():
+        warnings.simplefilter("ignore")
+        axis = int(rng.integers(3))
+        e = np.eye(3)[axis]
+        spin = float(rng.uniform(7, 11)) * (1 if rng.random() < 0.5 else -1)
+        r0 = np.eye(3)[(axis + 1) % 3] * float(rng.uniform(0.3, 0.7))
+        u0 = np.concatenate([np.cross(spin * e, r0), spin * e])
+        Th = np.diag(rng.uniform(0.05, 0.3, size=3))
+        S = System()
+        b = RigidBody(float(rng.uniform(0.5, 2)), Th, q0=np.concatenate([r0, [1.0, 0, 0, 0]]), u0=u0, name="b")
+        j = Revolute(S.origin, b, axis, angle0=float(rng.uniform(-1, 1)), r_OJ0=np.zeros(3), A_IJ0=np.eye(3), name="j")
+        S.add(b, j, Spring(j, float(rng.uniform(0.1, 0.4)), l_ref=0.0, compliance_form=False, name="torsion"))
+        S.assemble(options=SolverOptions())
+        S_eval = S.deepcopy()
+        dt = 1e-2
+        T1 = 2 * np.pi / abs(spin) * float(rng.uniform(1.15, 1.6))        # leg 1 passes one full turn
+        det = {**spec, "axis": axis, "spin": spin, "T1": T1}
+        try:
+            sol1 = sv.ScipyIVP(S, S.t0 + T1, dt, rtol=1e-9, atol=1e-11).solve()
+            S.set_new_initial_state(np.asarray(sol1.q)[-1].copy(), np.asarray(sol1.u)[-1].copy(), t0=float(np.asarray(sol1.t)[-1]),
+                                    options=SolverOptions(compute_consistent_initial_conditions=False))
+            sol2 = sv.ScipyIVP(S, S.t0 + 0.4 * T1, dt, rtol=1e-9, atol=1e-11).solve()
+        except Exception as e_:
+            ctx.undecided(f"ivp_restart raised {type(e_).__name__}: {e_}"[:150]); ctx.sig([det], nontrivial=False); return
+    ctx.cls("solver:ScipyIVP"); ctx.cls("ivp_restart")
+    worst = {1: 0.0, 2: 0.0}
+    for leg, sol in ((1, sol1), (2, sol2)):
+        t, q, u, ud, lag = (np.asarray(getattr(sol, f)) for f in ("t", "q", "u", "u_dot", "la_g"))
+        for k in range(len(t)):
+            M = dense(S_eval.M(t[k], q[k]))
+            h = S_eval.h(t[k], q[k], u[k])
+            R = M @ ud[k] - h - dense(S_eval.W_g(t[k], q[k])) @ lag[k]
+            worst[leg] = max(worst[leg], float(np.abs(R).max() / (1.0 + np.abs(h).max() + np.abs(lag[k]).max())))
+    ctx.mon("eom:ScipyIVP")
+    ctx.mon("eom:ScipyIVP:restart")
+    for leg in (1, 2):
+        if not worst[leg] <= 1e-7:
+            ctx.violation("ScipyIVP.solve", "reported accelerations and multipliers do not satisfy the equations of motion at an output time",
+                          {**det, "leg": leg, "rel_residual": worst[leg], "note": "leg 2 = run continued after set_new_initial_state; the joint carries a full turn from leg 1"})
+            break
+    ctx.sig([det], nontrivial=True)
+    ctx.sample({**det, "max_rel_residual_leg1": worst[1], "max_rel_residual_leg2": worst[2]})
+
+
 def run_case(spec, ctx):
     env.import_cardillo()
+    if spec.get("kind") == "ivp_restart":
+        return run_ivp_restart(spec, ctx)
     import cardillo.solver as sv
     from cardillo.solver import SolverOptions
     rng = ctx.rng
